@@ -414,6 +414,52 @@ def check_impulse_arith(rng, nr):
     return None, n
 
 
+def check_result_merge(nr):
+    """merging / copying / updating impulse and steady-state collections WITH internals: results are the key-wise unions (right operand wins), operands untouched"""
+    JD, FJD, ID, SSD, SS, IM, OS = cls()
+    T, n = 3, 0
+
+    def snap(x):
+        return ({k: np.array(v, copy=True) for k, v in x.toplevel.items()},
+                {b: {k: np.array(v, copy=True) for k, v in d.items()} for b, d in x.internals.items()}, id(x.internals), {b: id(d) for b, d in x.internals.items()})
+
+    def same(x, s):
+        return (set(x.toplevel) == set(s[0]) and all(np.array_equal(x.toplevel[k], v) for k, v in s[0].items()) and set(x.internals) == set(s[1])
+                and all(set(x.internals[b]) == set(d) and all(np.array_equal(x.internals[b][k], v) for k, v in d.items()) for b, d in s[1].items()))
+    for kind in ('impulse', 'steady'):
+        mk = (lambda top, internals: ID(top, internals, T)) if kind == 'impulse' else (lambda top, internals: SSD(top, internals))
+        val = (lambda: nr.normal(size=T)) if kind == 'impulse' else (lambda: float(nr.normal()))
+        for pattern in ('disjoint-blocks', 'same-block', 'right-without-internals', 'left-without-internals'):
+            n += 1
+            ia = {'hh': {'D': nr.normal(size=(T, 2)), 'a': nr.normal(size=(T, 2))}} if pattern != 'left-without-internals' else {}
+            ib = ({'firm': {'x': nr.normal(size=(T, 2))}} if pattern == 'disjoint-blocks' else {'hh': {'D': nr.normal(size=(T, 2))}}) if pattern != 'right-without-internals' else {}
+            a = mk({'u': val(), 'v': val()}, ia)
+            b = mk({'v': val(), 'w': val()}, ib)
+            sa, sb = snap(a), snap(b)
+            inp = dict(kind='result-merge', collection=kind, pattern=pattern)
+            m = a | b
+            if not same(a, sa) or not same(b, sb):
+                return dict(what=f'merging two {kind} collections with internals changed an operand', input=inp, signature=dict(op='result-merge-mutates', collection=kind)), n
+            exp_int = dict(ia)
+            exp_int.update(ib)
+            if set(m.toplevel) != {'u', 'v', 'w'} or not np.array_equal(m['v'], b['v']) or not np.array_equal(m['u'], a['u']) or set(m.internals) != set(exp_int) \
+                    or any(set(m.internals[blk]) != set(d) or any(not np.array_equal(m.internals[blk][k], v) for k, v in d.items()) for blk, d in exp_int.items()):
+                return dict(what=f'the merge of two {kind} collections is not the key-wise union with the right operand winning', input=inp, signature=dict(op='result-merge', collection=kind)), n
+            c = a.copy()
+            c.update(b)
+            c['u'] = val()
+            if not same(a, sa) or not same(b, sb):
+                return dict(what=f'updating a copy of a {kind} collection changed the original (shared containers)', input=inp, signature=dict(op='result-copy-aliases', collection=kind)), n
+            d = type(a)(a)
+            d.internals['extra'] = {'z': np.zeros(2)}
+            if not same(a, sa):
+                return dict(what=f'constructing a {kind} collection from another shares its internals container', input=inp, signature=dict(op='result-copy-aliases', collection=kind)), n
+            z = a - a if kind == 'impulse' else None
+            if z is not None and set(z.internals) != set(sa[1]):
+                return dict(what='arithmetic on an impulse collection after a merge carries foreign internals', input=inp, signature=dict(op='result-merge-mutates', collection=kind)), n
+    return None, n
+
+
 def oracle(ctx, hints, broken):
     rng = ctx['rng']
     nr = np.random.default_rng(ctx['seed'] + 14)
@@ -434,10 +480,17 @@ def oracle(ctx, hints, broken):
     v, k = check_impulse_arith(rng, nr)
     n += k
     C.push(viol, v)
+    try:
+        v, k = check_result_merge(nr)
+    except Exception as ex:
+        import traceback
+        v, k = dict(what=f'check_result_merge raised {type(ex).__name__}: {ex}', input=dict(kind='result-merge', trace=traceback.format_exc()[-600:]), signature=dict(op='result-merge', what='raise')), 1
+    n += k
+    C.push(viol, v)
     return dict(evaluations=n, violations=viol,
                 rule='dense numpy block matrices on (T+8)-windows for compose with random kind mixtures (dense/sparse/identity), apply incl. a supplied '
                      'path named like an output, pack/unpack/getitem/merge/complete/T-mismatch, FactoredJacobianDict with permuted target order '
-                     'vs numpy.linalg.solve, ImpulseDict arithmetic over 9 accepted and 6 refused operand kinds incl. reflected forms')
+                     'vs numpy.linalg.solve, ImpulseDict arithmetic over 9 accepted and 6 refused operand kinds incl. reflected forms, merge/copy/update of impulse and steady-state collections carrying internals (operands untouched, key-wise union)')
 
 
 def replay(rp):
@@ -447,6 +500,8 @@ def replay(rp):
     f = {'compose': check_compose, 'apply': check_apply, 'pack': check_pack, 'factored': check_factored}.get(c.get('kind'))
     if c.get('kind') == 'impulse':
         return check_impulse_arith(rng, nr)[0]
+    if c.get('kind') == 'result-merge':
+        return check_result_merge(nr)[0]
     if f is None:
         return None
     for _ in range(400):                          # re-search: inputs are generated, the recorded case documents the kind
